@@ -316,7 +316,10 @@ func decodeCiscoDiscoveryInfo(data []byte, p gopacket.PacketBuilder) error {
 			l := len(v)
 			if l%5 == 0 && l >= 5 {
 				for len(v) > 0 {
-					_, ipnet, _ := net.ParseCIDR(fmt.Sprintf("%d.%d.%d.%d/%d", v[0], v[1], v[2], v[3], v[4]))
+					_, ipnet, err := net.ParseCIDR(fmt.Sprintf("%d.%d.%d.%d/%d", v[0], v[1], v[2], v[3], v[4]))
+					if err != nil {
+						return fmt.Errorf("Invalid TLV %v prefix length %d", val.Type, v[4])
+					}
 					info.IPPrefixes = append(info.IPPrefixes, *ipnet)
 					v = v[5:]
 				}
